@@ -1,1 +1,159 @@
-//! Verification hooks: worker (see verif/mod.rs).
+//! Verification hooks: the worker state machine without sockets.
+//!
+//! `VerifWorker` owns a real `WorkerStateRef` (real allocator, real `process_worker_message`,
+//! real `handle_task_future` spawned on the current `LocalSet`). The harness supplies the
+//! `TaskLauncher` (so it decides when and how a task ends) and carries the messages.
+use std::time::Duration;
+
+use bytes::Bytes;
+use tokio::sync::mpsc::{UnboundedReceiver, unbounded_channel};
+
+use crate::internal::common::resources::map::ResourceIdMap;
+use crate::internal::messages::worker::{
+    FromWorkerMessage, ToWorkerMessage, WorkerRegistrationResponse,
+};
+use crate::internal::transfer::auth::deserialize;
+use crate::internal::worker::comm::WorkerComm;
+use crate::internal::worker::configuration::{WorkerConfiguration, sync_worker_configuration};
+use crate::internal::worker::rpc::{process_worker_message, verif_retract_check_process};
+use crate::internal::worker::state::WorkerStateRef;
+use crate::launcher::TaskLauncher;
+use crate::resources::ResourceRqId;
+use crate::{InstanceId, ResourceVariantId, TaskId, WorkerId};
+
+pub struct VerifWorker {
+    state_ref: WorkerStateRef,
+    receiver: UnboundedReceiver<Bytes>,
+    pub worker_id: WorkerId,
+}
+
+#[derive(Debug, Clone)]
+pub struct VerifRunningTask {
+    pub task_id: TaskId,
+    pub instance_id: InstanceId,
+    pub resource_rq_id: ResourceRqId,
+    pub rv_id: ResourceVariantId,
+    /// (resource id, [(index, group, fractions)], total amount in fractions)
+    pub allocation: Vec<(u32, Vec<(u32, u32, u64)>, u64)>,
+}
+
+#[derive(Debug, Clone, Default)]
+pub struct VerifWorkerSnapshot {
+    pub running: Vec<VerifRunningTask>,
+    /// backlog per request id in stack order (last element is started first)
+    pub prefilled: Vec<(ResourceRqId, Vec<(TaskId, InstanceId)>)>,
+    pub blocked: Vec<(ResourceRqId, ResourceVariantId)>,
+}
+
+impl VerifWorker {
+    /// Mirrors the state construction in `run_worker`.
+    pub fn new(
+        mut configuration: WorkerConfiguration,
+        registration: WorkerRegistrationResponse,
+        launcher: Box<dyn TaskLauncher>,
+    ) -> Self {
+        let WorkerRegistrationResponse {
+            worker_id,
+            other_workers,
+            resource_names,
+            resource_rq_map,
+            server_idle_timeout,
+            server_uid,
+            worker_overview_interval_override,
+        } = registration;
+        let (queue_sender, queue_receiver) = unbounded_channel::<Bytes>();
+        sync_worker_configuration(&mut configuration, server_idle_timeout);
+        let comm = WorkerComm::new(queue_sender);
+        let state_ref = WorkerStateRef::new(
+            comm,
+            worker_id,
+            configuration,
+            ResourceIdMap::from_vec(resource_names),
+            resource_rq_map,
+            launcher,
+            server_uid,
+        );
+        {
+            let mut state = state_ref.get_mut();
+            state.worker_overview_interval_override = worker_overview_interval_override;
+            for worker_info in other_workers {
+                state.new_worker(worker_info);
+            }
+        }
+        VerifWorker {
+            state_ref,
+            receiver: queue_receiver,
+            worker_id,
+        }
+    }
+
+    /// One iteration of `worker_message_loop`; returns true when the worker was told to stop.
+    pub fn process(&self, message: ToWorkerMessage) -> bool {
+        let mut state = self.state_ref.get_mut();
+        process_worker_message(&mut state, message)
+    }
+
+    /// Spawns the production `retract_check_process` on the current `LocalSet`.
+    pub fn spawn_retract_check(&self, interval: Duration) {
+        tokio::task::spawn_local(verif_retract_check_process(interval, self.state_ref.clone()));
+    }
+
+    /// Messages the worker queued for the server since the last call, in send order.
+    pub fn drain_messages(&mut self) -> Vec<FromWorkerMessage> {
+        let mut result = Vec::new();
+        while let Ok(data) = self.receiver.try_recv() {
+            result.push(deserialize(&data).expect("verif: cannot deserialize FromWorkerMessage"));
+        }
+        result
+    }
+
+    pub fn snapshot(&self) -> VerifWorkerSnapshot {
+        let state = self.state_ref.get();
+        let mut running: Vec<VerifRunningTask> = state
+            .running_tasks
+            .values()
+            .map(|rt| VerifRunningTask {
+                task_id: rt.task.id,
+                instance_id: rt.task.instance_id,
+                resource_rq_id: rt.task.resource_rq_id,
+                rv_id: rt.rv_id,
+                allocation: rt
+                    .allocation
+                    .resources
+                    .iter()
+                    .map(|ra| {
+                        (
+                            ra.resource_id.as_num(),
+                            ra.indices
+                                .iter()
+                                .map(|i| {
+                                    (
+                                        i.index.as_num(),
+                                        i.group_idx,
+                                        i.fractions as u64,
+                                    )
+                                })
+                                .collect(),
+                            ra.amount.total_fractions(),
+                        )
+                    })
+                    .collect(),
+            })
+            .collect();
+        running.sort_by_key(|r| r.task_id);
+        let mut prefilled: Vec<_> = state
+            .prefilled_tasks
+            .iter()
+            .filter(|(_, ts)| !ts.is_empty())
+            .map(|(rq, ts)| (*rq, ts.iter().map(|t| (t.id, t.instance_id)).collect()))
+            .collect();
+        prefilled.sort_by_key(|(rq, _): &(ResourceRqId, Vec<_>)| *rq);
+        let mut blocked: Vec<_> = state.blocked_requests.iter().copied().collect();
+        blocked.sort();
+        VerifWorkerSnapshot {
+            running,
+            prefilled,
+            blocked,
+        }
+    }
+}
